@@ -52,6 +52,7 @@ def gen_history(rnd, pool, maxlen):
                 steps.append({"job": pool[j]["provider"], "churn": rnd.randrange(1 << 30), "compiler": st["compiler"]})
         else:
             st["shared"] = rnd.random() < 0.5
+            st["plant"] = rnd.random() < 0.3  # this call's graphs inherit stale memo entries (see vf/hist.py KCache)
         steps.append(st)
     return steps
 
@@ -110,7 +111,13 @@ class Runner:
                         os.rename(hidden, st["hide"])
                 acc.count("calls_with_an_imported_file_missing")
                 continue
-            res = hist.compute(job, compiler=comp, objs=objs)
+            hist.KCACHE.plant = bool(st.get("plant"))
+            try:
+                res = hist.compute(job, compiler=comp, objs=objs)
+            finally:
+                hist.KCACHE.plant = False
+            if st.get("plant"):
+                acc.count("calls_with_stale_memo_planted")
             acc.count("calls_observed")
             acc.count("calls:" + job["k"])
             if not res.get("ok"):
